@@ -681,3 +681,123 @@ Proof.
     apply clean_no_us; [reflexivity | exact C].
   - split; [exists (prefix_of x); exact D | exact N].
 Qed.
+
+(* ====================== refutations outside the premises (witnesses replayed on the real code) ====================== *)
+Definition ls_a : logsource := {| ls_cat := Some [97]; ls_prod := None; ls_serv := None; ls_def := None |}.
+Definition mk_rule (d : dets) (c : str) : rule :=
+  {| r_kind := KDetection; r_id := None; r_name := None; r_ls := ls_a; r_dets := d; r_conds := [c] |}.
+Definition mk_filter (d : dets) (c : str) : sfilter := {| f_ls := ls_a; f_rules := FAny; f_dets := d; f_cond := c |}.
+Definition draw_a : str := repeat 97 10.                               (* "aaaaaaaaaa" *)
+Definition n_sel : str := [115;101;108].                               (* sel *)
+Definition n_flt : str := [102;108;116].                               (* flt *)
+Definition s_not_flt : str := [110;111;116;32;102;108;116].            (* not flt *)
+
+Lemma not_narrowed_by_value r f r' c c' asgd x y z :
+  r_conds r = [c] -> r_conds r' = [c'] ->
+  cond_value (r_dets r) c asgd = Some x -> cond_value (f_dets f) (f_cond f) asgd = Some y ->
+  cond_value (r_dets r') c' asgd = Some z -> z <> (x && y) -> ~ narrowed r f r'.
+Proof.
+  intros Hc Hc' Hx Hy Hz Hne N. unfold narrowed in N. rewrite Hc, Hc' in N.
+  inversion N as [|? ? ? ? H _]; subst. destruct (H asgd) as [x' [y' [E1 [E2 E3]]]].
+  rewrite Hx in E1. rewrite Hy in E2. rewrite Hz in E3. inversion E1; inversion E2; inversion E3; subst. apply Hne. reflexivity.
+Qed.
+
+(* D15: rule  _s: ...  condition "not 1 of _*";  filter  flt: ...  condition "flt"
+   (applied: not (_s or flt) and flt, which is never true) *)
+Definition w15_rule := mk_rule [([95;115], 0)] [110;111;116;32;49;32;111;102;32;95;42].
+Definition w15_filter := mk_filter [(n_flt, 1)] n_flt.
+Theorem underscore_capture_refuted :
+  exists draws f r r' rest, should_apply f r = true /\ apply_on_rule draws f r = Some (r', rest) /\ ~ narrowed r f r'.
+Proof.
+  exists [draw_a], w15_filter, w15_rule.
+  destruct (apply_on_rule [draw_a] w15_filter w15_rule) as [[r' rest]|] eqn:E; [|vm_compute in E; discriminate].
+  exists r', rest. split; [reflexivity|]. split; [reflexivity|].
+  vm_compute in E. inversion E; subst r' rest. clear E.
+  eapply (not_narrowed_by_value _ _ _ _ _ (fun d => d =? 1) true true false); try reflexivity. discriminate.
+Qed.
+
+(* keyword-named filter detection: rule  sel, Not  condition "sel";  filter  Not  condition "Not" *)
+Definition n_Not : str := [78;111;116].
+Definition wkw_rule := mk_rule [(n_sel, 0); (n_Not, 1)] n_sel.
+Definition wkw_filter := mk_filter [(n_Not, 2)] n_Not.
+Theorem keyword_name_refuted :
+  exists draws f r r' rest, should_apply f r = true /\ apply_on_rule draws f r = Some (r', rest) /\ ~ narrowed r f r'.
+Proof.
+  exists [draw_a], wkw_filter, wkw_rule.
+  destruct (apply_on_rule [draw_a] wkw_filter wkw_rule) as [[r' rest]|] eqn:E; [|vm_compute in E; discriminate].
+  exists r', rest. split; [reflexivity|]. split; [reflexivity|].
+  vm_compute in E. inversion E; subst r' rest. clear E.
+  eapply (not_narrowed_by_value _ _ _ _ _ (fun d => negb (d =? 2)) true false true); try reflexivity. discriminate.
+Qed.
+
+(* filter detection beginning with '_': rule sel "sel"; filter _u, v  condition "not 1 of them" *)
+Definition wus_rule := mk_rule [(n_sel, 0)] n_sel.
+Definition wus_filter := mk_filter [([95;117], 1); ([118], 2)] [110;111;116;32;49;32;111;102;32;116;104;101;109].
+Theorem underscore_filter_name_refuted :
+  exists draws f r r' rest, should_apply f r = true /\ apply_on_rule draws f r = Some (r', rest) /\ ~ narrowed r f r'.
+Proof.
+  exists [draw_a], wus_filter, wus_rule.
+  destruct (apply_on_rule [draw_a] wus_filter wus_rule) as [[r' rest]|] eqn:E; [|vm_compute in E; discriminate].
+  exists r', rest. split; [reflexivity|]. split; [reflexivity|].
+  vm_compute in E. inversion E; subst r' rest. clear E.
+  eapply (not_narrowed_by_value _ _ _ _ _ (fun d => negb (d =? 2)) true true false); try reflexivity. discriminate.
+Qed.
+
+(* unbalanced rule condition "a) or (b": does not load alone, loads once the filter is applied *)
+Definition wub_rule := mk_rule [([97], 0); ([98], 1)] [97;41;32;111;114;32;40;98].
+Theorem unbalanced_refuted :
+  exists draws f r r' rest c c', should_apply f r = true /\ apply_on_rule draws f r = Some (r', rest) /\
+    r_conds r = [c] /\ r_conds r' = [c'] /\
+    (forall asgd, cond_value (r_dets r) c asgd = None) /\
+    (forall asgd, exists z, cond_value (r_dets r') c' asgd = Some z).
+Proof.
+  exists [draw_a], wus_filter, wub_rule.
+  destruct (apply_on_rule [draw_a] wus_filter wub_rule) as [[r' rest]|] eqn:E; [|vm_compute in E; discriminate].
+  vm_compute in E. inversion E; subst r' rest. clear E.
+  do 2 eexists. exists [97;41;32;111;114;32;40;98]. eexists.
+  split; [reflexivity|]. split; [reflexivity|]. split; [reflexivity|]. split; [reflexivity|]. split.
+  - intros asgd. reflexivity.
+  - intros asgd. eexists. vm_compute. reflexivity.
+Qed.
+
+(* ====================== the premises are inhabited (overlapping names on both sides) ====================== *)
+Definition ex_rule : rule :=     (* sel, flt ;  " sel or 1 of fl*" *)
+  mk_rule [(n_sel, 0); (n_flt, 1)] (render [TW n_sel; TW w_or; TW w_1; TW w_of; TW [102;108;42]]).
+Definition ex_filter : sfilter := (* flt, sel ;  " not 1 of them" *)
+  mk_filter [(n_flt, 2); (n_sel, 3)] (render [TW w_not; TW w_1; TW w_of; TW w_them]).
+Definition ex_e : expr := EOr (EId n_sel) (ESel Q1 [102;108;42]).
+Definition ex_ef : expr := ENot (ESel Q1 w_them).
+
+Lemma ex_reads_rule : reads (r_dets ex_rule) (render [TW n_sel; TW w_or; TW w_1; TW w_of; TW [102;108;42]]) ex_e.
+Proof.
+  split; [|repeat split; reflexivity].
+  eexists. split; [apply render_lay; repeat constructor; discriminate|].
+  apply (sp_or [TW n_sel] [TW w_1; TW w_of; TW [102;108;42]]).
+  - apply (sp_up 2), (sp_up 1), (sp_up 0), sp_id.
+  - apply (sp_up 1), (sp_up 0). apply (sp_sel Q1).
+Qed.
+
+Lemma ex_reads_filter : reads (f_dets ex_filter) (f_cond ex_filter) ex_ef.
+Proof.
+  split; [|repeat split; reflexivity].
+  eexists. split; [apply render_lay; repeat constructor; discriminate|].
+  apply (sp_up 2), (sp_up 1). apply (sp_not [TW w_1; TW w_of; TW w_them]). apply (sp_up 0). apply (sp_sel Q1).
+Qed.
+
+Theorem premises_inhabited :
+  should_apply ex_filter ex_rule = true /\
+  Forall (fun d => lower_draw d = true) [draw_a] /\
+  NoDup (names (f_dets ex_filter)) /\
+  reads (f_dets ex_filter) (f_cond ex_filter) ex_ef /\ plain ex_ef = true /\
+  (forall n, In n (names (f_dets ex_filter)) -> us n = false) /\
+  Forall (fun c => exists e, reads (r_dets ex_rule) c e /\ no_us_patterns e = true) (r_conds ex_rule) /\
+  exists r' rest, apply_on_rule [draw_a] ex_filter ex_rule = Some (r', rest).
+Proof.
+  split; [reflexivity|]. split; [repeat constructor|]. split.
+  { repeat constructor; simpl; intuition discriminate. }
+  split; [exact ex_reads_filter|]. split; [reflexivity|]. split.
+  { intros n [<-|[<-|[]]]; reflexivity. }
+  split.
+  { constructor; [|constructor]. exists ex_e. split; [exact ex_reads_rule|reflexivity]. }
+  eexists _, _. vm_compute. reflexivity.
+Qed.
